@@ -56,7 +56,7 @@ def plan(tier, seed):
         {datetime.date(2015, 1, 1), datetime.date(2020, 1, 1), datetime.date(2023, 7, 1),
          ds[int(r.integers(0, len(ds)))]})
     for d in sys_dates:
-        for k in range(4 if tier == "quick" else 8):
+        for k in ((0, 1, 2, 3, 6) if tier == "quick" else range(8)):
             items.append(dict(kind="system", date=str(d), k=k, seed=seed))
     cat = rule_catalogue()
     for key, (name, act) in sorted(cat.items()):
@@ -188,6 +188,36 @@ def _run_system(item):
                 return res
             tr = tr.reset_index(drop=True)
             res["debug_frames"] = 1
+        elif item["k"] % 4 == 2:
+            # data as a dict of Series whose index labels are permuted differently per column: rows are positions,
+            # so every computed value must be the rule applied to the inputs at the same POSITION
+            import pandas as pd
+
+            nodes, roots, dag, fn = env.graph(functions, list(df.columns))
+            # k % 8 == 2: every column with its own permutation; k % 8 == 6: identifiers, pointers, flags and group-level
+            # columns share one labelling, only the individual money columns carry other permutations of the same labels
+            free = [c for c in df.columns if df[c].dtype.kind == "f" and c.split("_")[-1] not in ("hh", "fg", "bg", "eg", "ehe", "sn", "wthh")]
+            common = rng.permutation(len(df))
+            data = {c: pd.Series(df[c].to_numpy(), index=rng.permutation(len(df)) if (item["k"] % 8 == 2 or c in free) else common)
+                    for c in df.columns}
+            try:
+                out = env.simulate(data, params, functions, nodes, rounding=False)
+            except ValueError as e:
+                if "identically-labeled" not in str(e):
+                    raise
+                # the unchanged tree refuses columns whose labels disagree (loudly, in the pointer check): acceptable;
+                # what must never happen is a silent re-alignment by label
+                res["dict_frames_rejected"] = 1
+                res["sample"] = popgen.describe(df)
+                return res
+            if len(out) != len(df):
+                res["violations"].append(dict(key="dict:rows", what=f"dict-of-Series input returns {len(out)} rows for {len(df)} input rows", date=item["date"]))
+                return res
+            tr = out.reset_index(drop=True).copy()
+            for c in df.columns:
+                if c not in tr.columns:
+                    tr[c] = df[c].to_numpy()
+            res["dict_frames"] = 1
         else:
             tr, nodes, roots, dag, fn = env.trace(df, params, functions, rounding=False)
     except Exception as e:  # noqa: BLE001 - completeness is C08's business; here the run just yields nothing to compare
@@ -320,6 +350,8 @@ def summarize(results, tier, seed):
         rules_total=len(all_rules), rules_exercised_single=len(exercised),
         rules_exercised_system=len(sys_rules),
         system_runs_through_debug_frame=sum(r.get("debug_frames", 0) for r in system),
+        system_runs_with_dict_of_series_and_permuted_labels=dict(computed=sum(r.get("dict_frames", 0) for r in system),
+                                                                 rejected_loudly=sum(r.get("dict_frames_rejected", 0) for r in system)),
         rules_never_exercised={k: why[k] for k in never[:60]},
         rows_compared=sum(r["rows"] for r in ok),
         rule_columns_compared=sum(r["rules"] for r in ok),
